@@ -194,13 +194,8 @@ static bool lra_exec(world &w, const std::string &op, hv::toks &t, std::string &
   {
     lin a = t.linexp();
     check_lra_lin(th, a);
-    bool basic = false;
-    for (const auto &[v, c] : a.vars)
-      basic = basic || th.is_basic(v);
     if (a.vars.empty() || !w.sat.root_level())
       res = "pre";
-    else if (op == "nvl" && basic) // new_var(lin) stores the expression as a row as it is (finding nvl-basic)
-      res = "pre:basic";
     else
       res = std::to_string(th.new_var(a));
   }
